@@ -234,6 +234,40 @@ fn instr_list(kind: &ListKind, full: &[String]) -> Vec<String> {
     }
 }
 
+fn collect_names(item: &Item, out: &mut std::collections::BTreeSet<String>) {
+    match item {
+        Item::List { items } => {
+            for i in 0..items.size() {
+                collect_names(items.get(i).unwrap(), out);
+            }
+        }
+        Item::Identifier { name } => {
+            out.insert(name.clone());
+        }
+        _ => {}
+    }
+}
+
+/// Names that occur in the state without being bound.
+fn stale_names(st: &PushState) -> std::collections::BTreeSet<String> {
+    let mut all = std::collections::BTreeSet::new();
+    for i in 0..st.name_stack.size() {
+        all.insert(st.name_stack.get(i).unwrap().clone());
+    }
+    for (_, v) in st.name_bindings.iter() {
+        collect_names(v, &mut all);
+    }
+    for i in 0..st.code_stack.size() {
+        collect_names(st.code_stack.get(i).unwrap(), &mut all);
+    }
+    for i in 0..st.exec_stack.size() {
+        collect_names(st.exec_stack.get(i).unwrap(), &mut all);
+    }
+    all.retain(|n| st.name_bindings.get(n).is_none());
+    all
+}
+
+#[allow(dead_code)]
 fn is_seam_name(s: &str) -> bool {
     let parts: Vec<&str> = s.split('-').collect();
     parts.len() == 3
@@ -266,8 +300,11 @@ fn check_leaves(item: &Item, c: &LeafCtx, out: &mut Vec<String>) {
         }
         Item::Identifier { name } => {
             let bound = c.st.name_bindings.get(name).is_some();
-            if !bound && !is_seam_name(name) {
-                out.push(format!("name leaf {:?} is neither bound nor freshly generated", name));
+            // "new" = a name the state does not know: how fresh names look is the generator's business.
+            // An unbound name that lies around elsewhere in the state (NAME stack, inside a binding's
+            // value, in code) is neither currently bound nor new.
+            if !bound && stale_names(c.st).contains(name) {
+                out.push(format!("name leaf {:?} is neither bound nor new (it occurs elsewhere in the state without being bound)", name));
             }
             if !bound && c.p_new == 0.0 && c.st.name_bindings.len() > 0 {
                 out.push(format!("new name {:?} drawn although the new-name probability is 0 and bindings exist", name));
@@ -385,9 +422,8 @@ pub fn execute(sc: &EntropySc, full_list: &[String]) -> Executed {
                         if valid {
                             push(&mut vs, v("C13", "missing", site, format!("no vector for valid size {} sparsity {}", size, s)));
                         }
-                        if left != 0 {
-                            push(&mut vs, v("C13", "operands", site, "operands were not consumed".into()));
-                        }
+                        // (whether refused operands stay on their stacks is left open by the statement)
+                        let _ = left;
                     }
                     Ok((Some(bits), _)) => {
                         produced += 1;
@@ -707,9 +743,9 @@ pub fn execute(sc: &EntropySc, full_list: &[String]) -> Executed {
                 match res {
                     Err(x) => push(&mut vs, x),
                     Ok((item, ints, codes)) => {
-                        if ints != 2 {
-                            push(&mut vs, v("C12", "operands", "CODE.RAND", format!("INTEGER stack depth {} after the instruction (2 bystanders expected: exactly the size operand is consumed)", ints)));
-                        }
+                        // (how many INTEGER items the instruction takes is not part of the statement; the size
+                        // limit below is stated against the top one)
+                        let _ = ints;
                         if codes > 1 {
                             push(&mut vs, v("C12", "operands", "CODE.RAND", format!("{} items pushed", codes)));
                         }
